@@ -65,11 +65,12 @@ func (r *Reader) ReadUe() (res uint32) {
 
 // ReadSe .
 func (r *Reader) ReadSe() (res int32) {
-	ui32 := r.ReadUe()
-	if ui32&0x01 != 0 {
-		res = (int32(res) + 1) / 2
+	// se(v): codeNum k 映射为 (-1)^(k+1) * Ceil(k/2)，见 H.264 9.1.1
+	ue := int64(r.ReadUe())
+	if ue&0x01 != 0 {
+		res = int32((ue + 1) / 2)
 	} else {
-		res = -int32(res) / 2
+		res = int32(-(ue / 2))
 	}
 	return
 }
